@@ -4,7 +4,6 @@ def reg(pid, module, engine, text, note, technique, design_ref, func="check"):
     PROPS[pid] = dict(module=module, engine=engine, text=text, note=note, technique=technique,
                       design_ref=design_ref, func=func)
 
-reg("C19", "time_eng", "time",
-    "Coq theorems over all of Z (every u64, every (secs,nanos), every TimeDelta/DateTime in range): each conversion of the model returns exactly the denoted value when representable and rejects otherwise (C19_exact_or_rejected_partial + six round-trip/rejection theorems), kernel-checked; the hand-written model is tied to crux_time on every run by evaluating model and implementation on ~4k boundary and seeded random inputs per run (vm_compute inside coqc) and by evaluating the proved trace predicate C19_ok on the implementation's own results.",
-    "Trusted: Coq kernel; hand-written model of duration.rs/instant.rs/chrono.rs (std Duration::new carry, SystemTime i64 range, chrono from_timestamp range and leap-second rule are modelled, tied by correspondence only); Rust harness. No axioms. One known class (Instant deserialised with nanos>=1e9) is excluded from the partial theorem and listed in KNOWN_FINDINGS.txt.",
-    "Coq proof (lia over Z) + model/implementation correspondence by vm_compute", "DESIGN.md section 6 C19", func="check_C19")
+import os, glob
+for _f in sorted(glob.glob(os.path.join(os.path.dirname(os.path.abspath(__file__)), "props.d", "*.py"))):
+    exec(compile(open(_f).read(), _f, "exec"), {"reg": reg})
